@@ -2,4 +2,5 @@ SPECIFICATION Spec
 CONSTANTS
   N = 3
   AllPairs = TRUE
+  Sparse = 0
 CHECK_DEADLOCK FALSE
